@@ -17,15 +17,15 @@ theorem items_some {s : St} {i : Nat} {it : Item} (h : s.items[i]? = some it) :
   exact ⟨hl, by simp [St.iout, h], by simp [St.ibatch, h]⟩
 
 theorem newItemOn_pending {s : St} {b : Nat} (hb : b < s.batches.length) (hp : s.bout b = none)
-    (p : Nat) (sp src : Option Nat) :
-    newItemOn s b p sp src = some (s.pushItem b p sp, [.created s.items.length b src]) := by
+    (p : Nat) (sp src : Option Nat) {lk : Option Link} :
+    newItemOn s b p sp src lk = some (s.pushItem b p sp lk, [.created s.items.length b src]) := by
   unfold newItemOn
   have e : s.batches[b]? = some s.batches[b] := List.getElem?_eq_getElem hb
   simp only [St.bout, e, Option.bind_some] at hp
   simp [e, hp]
 
-theorem newItemOn_finished {s : St} {b : Nat} (hp : (s.bout b).isSome) (p : Nat) (sp src : Option Nat) :
-    newItemOn s b p sp src = none := by
+theorem newItemOn_finished {s : St} {b : Nat} (hp : (s.bout b).isSome) (p : Nat) (sp src : Option Nat)
+    {lk : Option Link} : newItemOn s b p sp src lk = none := by
   unfold newItemOn
   cases e : s.batches[b]? with
   | none => rfl
@@ -34,7 +34,7 @@ theorem newItemOn_finished {s : St} {b : Nat} (hp : (s.bout b).isSome) (p : Nat)
     simp [hp]
 
 theorem good_pushItem {s : St} {b : Nat} (hg : Good s) (hb : b < s.batches.length) (hp : s.bout b = none)
-    (p : Nat) (sp : Option Nat) : Good (s.pushItem b p sp) := by
+    (p : Nat) (sp : Option Nat) (lk : Option Link := none) : Good (s.pushItem b p sp lk) := by
   obtain ⟨ga, gp, gi, gb⟩ := hg
   refine ⟨by simpa using ga, by simpa using gp, ?_, ?_⟩
   · intro j hj
@@ -69,27 +69,30 @@ theorem good_pushItem {s : St} {b : Nat} (hg : Good s) (hb : b < s.batches.lengt
 
 /-- the observation of an item constructed on a pending batch b is accepted -/
 theorem created_ok {s : St} {b : Nat} (hg : Good s) (hb : b < s.batches.length) (hp : s.bout b = none)
-    (op : Op) (p : Nat) (sp : Option Nat)
-    (h1 : opClause s ⟨op, .created s.items.length, [.created s.items.length b none], s.pushItem b p sp⟩ = none) :
-    specStep s ⟨op, .created s.items.length, [.created s.items.length b none], s.pushItem b p sp⟩ = none := by
-  refine specStep_none h1 ?_ (by simp [Ev.isAnnounce]) (ext_pushItem s b p sp) (good_pushItem hg hb hp p sp)
+    (op : Op) (p : Nat) (sp : Option Nat) (lk : Option Link)
+    (h1 : opClause s ⟨op, .created s.items.length, [.created s.items.length b none], s.pushItem b p sp lk⟩ = none) :
+    specStep s ⟨op, .created s.items.length, [.created s.items.length b none], s.pushItem b p sp lk⟩ = none := by
+  refine specStep_none h1 ?_ (by simp [Ev.isAnnounce]) (ext_pushItem s b p sp lk) (good_pushItem hg hb hp p sp lk)
   intro ev hev
   simp only [List.mem_singleton] at hev
   subst hev
   simp [evClause, pushItem_ibatch, hp]
 
-theorem pushItem_last (s : St) (b p : Nat) (sp : Option Nat) :
-    (s.pushItem b p sp).items[s.items.length]? = some { batch := b, payload := p, spawn := sp, out := none } := by
+theorem pushItem_last (s : St) (b p : Nat) (sp : Option Nat) (lk : Option Link) :
+    (s.pushItem b p sp lk).items[s.items.length]? =
+      some { batch := b, payload := p, spawn := sp, link := lk, out := none } := by
   simp [St.pushItem]
 
-theorem pushItem_last' (s : St) (b p : Nat) (sp : Option Nat) (h : s.items.length < (s.pushItem b p sp).items.length) :
-    (s.pushItem b p sp).items[s.items.length]'h = { batch := b, payload := p, spawn := sp, out := none } := by
+theorem pushItem_last' (s : St) (b p : Nat) (sp : Option Nat) (lk : Option Link)
+    (h : s.items.length < (s.pushItem b p sp lk).items.length) :
+    (s.pushItem b p sp lk).items[s.items.length]'h =
+      { batch := b, payload := p, spawn := sp, link := lk, out := none } := by
   simp [St.pushItem]
 
-theorem step_ok_add (scripts : List Script) (s : St) (hg : Good s) (p : Nat) (sp : Option Nat) :
-    specStep s (observe scripts s (.add p sp)).2 = none := by
+theorem step_ok_add (scripts : List Script) (s : St) (hg : Good s) (p : Nat) (sp : Option Nat) (lk : Option Link) :
+    specStep s (observe scripts s (.add p sp lk)).2 = none := by
   simp only [observe, step, newItemOn_pending hg.1 hg.2.1]
-  apply created_ok hg hg.1 hg.2.1
+  apply created_ok hg hg.1 hg.2.1 _ _ _ lk
   simp [opClause, pushItem_last, pushItem_last']
 
 theorem step_ok_addTo (scripts : List Script) (s : St) (hg : Good s) (b p : Nat) :
